@@ -369,3 +369,6 @@ End Collect.
 Example names_ok_example :
   names_ok (El s_details [s_open] [(s_class, s_k_i)] [Txt s_k_i_closed; El s_span [] [] [Txt []; Txt s_k]]).
 Proof. reflexivity. Qed.
+
+Example escape_ampersands_example : escape [c_amp] = [] ++ c_amp :: e_amp /\ entity_at e_amp = Some (c_amp, 4%nat).
+Proof. split; reflexivity. Qed.
